@@ -9,6 +9,7 @@ import MayVerif.Model.Queue.MpscReplay
 import MayVerif.Model.Queue.SpscReplay
 import MayVerif.Model.Runtime.JoinReplay
 import MayVerif.Model.Chan.MpscReplay
+import MayVerif.Model.Queue.SpmcReplay
 open MayVerif
 
 def machines : List (String × Machine) := [
@@ -18,5 +19,6 @@ def machines : List (String × Machine) := [
   ("mq_mpsc", MayVerif.Mpsc.machine),
   ("mq_spsc", MayVerif.Spsc.machine),
   ("join", MayVerif.Join.machine),
-  ("ch_mpsc", MayVerif.Chan.Mpsc.machine)
+  ("ch_mpsc", MayVerif.Chan.Mpsc.machine),
+  ("mq_spmc", MayVerif.Spmc.machine)
 ]
